@@ -1158,6 +1158,23 @@ func (cs *ConsensusState) enterPrevote(height uint64, round uint32) {
 
 func (cs *ConsensusState) doPrevote(height uint64, round uint32) {
 	logger := cs.Logger.New("height", height, "round", round)
+	// A polka for another block in a round after the lock round releases the lock, also when it
+	// completed before this node entered that round (addVote only looks at it when a prevote of that
+	// round is added while cs.Round >= that round).
+	if cs.LockedBlock != nil {
+		for r := cs.Round; r > cs.LockedRound; r-- {
+			if vs := cs.Votes.Prevotes(r); vs != nil {
+				if bid, ok := vs.TwoThirdsMajority(); ok && !cs.LockedBlock.HashesTo(bid.Hash) {
+					logger.Info("Unlocking because of an earlier POL.", "lockedRound", cs.LockedRound, "POLRound", r)
+					cs.LockedRound = 0
+					cs.LockedBlock = nil
+					cs.LockedBlockParts = nil
+					_ = cs.eventBus.PublishEventUnlock(cs.RoundStateEvent())
+					break
+				}
+			}
+		}
+	}
 	// If a block is locked, prevote that.
 	if cs.LockedBlock != nil {
 		logger.Info("enterPrevote: Block was locked")
